@@ -9,6 +9,7 @@ import time
 import traceback
 
 from . import tlc
+from . import aging
 
 _FN = None
 _PROP = None
@@ -17,7 +18,13 @@ _PROP = None
 def _call(args):
     i, scn = args
     try:
+        aging.set_scenario(i)
         out = _FN(i, scn)
+        ag = aging.take_stats()
+        if ag and isinstance(out, dict):
+            out.setdefault("count", {})
+            for k, v in ag.items():
+                out["count"][f"aging.{k}"] = out["count"].get(f"aging.{k}", 0) + v
         return i, out, None
     except common.MachineryError as e:
         return i, None, f"machinery: {e}"
@@ -50,6 +57,7 @@ def evaluate(rep, scenarios, fn, procs=16, chunksize=4, sample_fmt=None):
     findings = []
     t0 = time.time()
     items = list(enumerate(scenarios))
+    aging.adapt(len(items), rep.tier)
     if procs <= 1:
         it = map(_call, items)
         pool = None
